@@ -79,12 +79,48 @@ type Obs struct {
 	Exec2 []string `json:"exec2,omitempty"`
 	// the further calls of Case.Seq on the same Builder
 	More []CallObs `json:"more,omitempty"`
+	// Arguments passed by reference that a call changed: the []string handed
+	// to Build (the harness hands the very same slice to every call that asks
+	// for the same targets, as a caller that keeps its target list does) and
+	// the *Config handed to NewBuilder.
+	ArgMods []ArgMod `json:"arg_mods,omitempty"`
 	// after a crash: the number of the call that crashed (0 = Targets, 1 =
 	// Targets again, 2+k = Seq[k])
 	CrashCall int `json:"crash_call,omitempty"`
 	// Source tree as found on disk before the build (relative to src/).
 	TreeFiles []string `json:"tree_files"`
 	TreeDirs  []string `json:"tree_dirs"`
+}
+
+// ArgMod: call k (-1 = NewBuilder) changed an argument it was passed.
+type ArgMod struct {
+	Call   int      `json:"call"`
+	What   string   `json:"what"`
+	Before []string `json:"before"`
+	After  []string `json:"after"`
+}
+
+// spell writes the full name target as Build reads it from inside package dir.
+func spell(dir, target string) string {
+	if dir == "" {
+		return target
+	}
+	if strings.HasPrefix(target, dir+"/") {
+		return strings.TrimPrefix(target, dir+"/")
+	}
+	return "//" + target
+}
+
+func sameStrings(a, b []string) bool {
+	if len(a) != len(b) {
+		return false
+	}
+	for i := range a {
+		if a[i] != b[i] {
+			return false
+		}
+	}
+	return true
 }
 
 // CallObs is what one further Build call of a sequence returned.
@@ -103,6 +139,10 @@ type Case struct {
 	Targets []string `json:"targets"`
 	Loose   bool     `json:"loose,omitempty"` // compare the verdict only (parse errors)
 	Always  bool     `json:"always,omitempty"` // Config.AlwaysRebuild: the cache never short-cuts
+	// Work: the package directory the Builder is made in ("" = the workspace
+	// root); Build then reads its targets relative to it and the harness
+	// spells them so (Targets / Seq hold the resolved names).
+	Work string `json:"work,omitempty"`
 	// Seq: further target lists, built one after the other on the SAME
 	// Builder after Targets (and Targets again).
 	Seq [][]string `json:"seq,omitempty"`
@@ -354,11 +394,18 @@ func runCase(c *Case, timeout time.Duration) {
 	type result struct {
 		early []Err // the Builder could not be made
 		calls []callRes
+		mods  []ArgMod
 	}
 	done := make(chan result, 1)
 	go func() {
 		var r result
-		b, err := caco3.NewBuilder(root, &caco3.Config{Root: root, AlwaysRebuild: c.Always})
+		workDir := root
+		if c.Work != "" {
+			workDir = filepath.Join(root, "src", filepath.FromSlash(c.Work))
+		}
+		cfg := &caco3.Config{Root: root, AlwaysRebuild: c.Always}
+		cfg0 := *cfg
+		b, err := caco3.NewBuilder(workDir, cfg)
 		if err != nil {
 			r.early = []Err{{K: "other", N: "new builder: " + err.Error()}}
 			done <- r
@@ -369,14 +416,36 @@ func runCase(c *Case, timeout time.Duration) {
 			done <- r
 			return
 		}
+		// one slice per distinct target list, handed to every call that asks for it
+		held := map[string][]string{}
 		for k, ts := range calls {
 			if probing {
 				fmt.Fprintf(os.Stdout, "CALL %d\n", k)
 			}
+			spelled := make([]string, len(ts))
+			for i, t := range ts {
+				spelled[i] = spell(c.Work, t)
+			}
+			key := strings.Join(spelled, "\x00")
+			arg, ok := held[key]
+			if !ok {
+				arg = spelled
+				held[key] = arg
+			}
+			before := append([]string{}, arg...)
 			buf.Reset()
 			var cr callRes
-			for _, e := range b.Build(ts) {
+			for _, e := range b.Build(arg) {
 				cr.errs = append(cr.errs, classify(e.Err.Error(), srcDir))
+			}
+			if !sameStrings(before, arg) {
+				r.mods = append(r.mods, ArgMod{Call: k, What: "Build(rules []string)", Before: before,
+					After: append([]string{}, arg...)})
+			}
+			if *cfg != cfg0 {
+				r.mods = append(r.mods, ArgMod{Call: k, What: "NewBuilder(*Config)",
+					Before: []string{fmt.Sprintf("%+v", cfg0)}, After: []string{fmt.Sprintf("%+v", *cfg)}})
+				cfg0 = *cfg
 			}
 			cr.exec = buildLines(buf.String())
 			r.calls = append(r.calls, cr)
@@ -394,6 +463,7 @@ func runCase(c *Case, timeout time.Duration) {
 		for _, cr := range r.calls[2:] {
 			o.More = append(o.More, CallObs{Errs: cr.errs, Exec: cr.exec})
 		}
+		o.ArgMods = r.mods
 	case <-time.After(timeout):
 		// The build goroutine cannot be stopped; report and let the parent
 		// restart after this case.
